@@ -12,8 +12,9 @@ Viable-prefix property: `dead` is set at the FIRST token after which no continua
 Verdict.kind: 'VALID' | 'INVALID' | 'IRREGULAR'.  IRREGULAR = the classes the properties put outside
 C01's claim: omitted trailing required arguments ('missing'), an optional tag slot filled twice
 ('repeat-tag'), an unknown extension name in require ('unknown-ext'), a multi-line string inside a
-bracketed list ('ml-in-list', RFC-legal but outside sievelib's documented support), and lexically
-dubious string contents flagged by the lexer ('str-ctl', 'str-utf8').
+bracketed list ('ml-in-list', RFC-legal but outside sievelib's documented support), and control
+characters in string contents flagged by the lexer ('str-ctl'). A string token that is not valid UTF-8
+('str-utf8') makes the script INVALID (RFC 5228 8.1), without a position claim.
 """
 from . import table as T
 
@@ -473,6 +474,13 @@ class Pda:
                      "block": "EOF_IN_BLOCK"}
             dead = (kinds[top["k"]], self.n, self._owner(), None, self.ctx())
         lexirr = v.irregular & {"str-ctl", "str-utf8"}
+        if "str-utf8" in lexirr:
+            # "Sieve scripts are encoded in UTF-8. The following assumes a valid UTF-8 encoding" (RFC 5228 8.1): a string token whose
+            # octets are not UTF-8 is no token of the language (and cannot become the str the tree holds). The flag stays in
+            # v.irregular, so no position claim (C18) is attached to it.
+            v.kind = "INVALID"
+            v.reason, v.index, v.owner, v.detail, v.ctx = dead if dead is not None else ("STR_UTF8", self.n, self._owner(), None, self.ctx())
+            return v
         if lexirr:
             v.kind = "IRREGULAR"
             return v
